@@ -49,7 +49,7 @@ abbrev EndsP (st : Stmt) (r : List LItem) : Prop := r ≠ [] ∧ (isExit st = fa
 theorem opStmt_ret (st : Stmt) (_hx : isExit st = false) (n : String) (ps : List Param) : Ret (EndsP st) (opStmt n ps) :=
   Ret.bind (fun o => Ret.pure ⟨by simp, fun _ => rfl⟩)
 
-theorem cStmt_ret (lv : Nat) (st : Stmt) (lb : Nat) (hg : cgStmt lv st = true) : Ret (EndsP st) (cStmt [] lb st) := by
+theorem cStmt_ret (cm : Macros) (lv : Nat) (st : Stmt) (lb : Nat) (hg : cgStmt lv st = true) : Ret (EndsP st) (cStmt cm lb st) := by
   cases st with
   | op n ps => simp only [cStmt]; exact opStmt_ret _ rfl n ps
   | ret => simp only [cStmt]; exact opStmt_ret _ rfl _ _
@@ -134,11 +134,19 @@ theorem cStmt_ret (lv : Nat) (st : Stmt) (lb : Nat) (hg : cgStmt lv st = true) :
     exact ⟨by simp, fun _ => by
       have : (Gen.op_call == Gen.op_jump) = false := by decide
       simp [loneJump, this]⟩
-  | macroCall _ _ => simp [cgStmt] at hg
+  | macroCall name args =>
+    simp only [cStmt, macroStmt]
+    split
+    · exact Ret.fail _
+    · simp only [buildMacro]
+      split
+      · exact Ret.bind (fun _ => Ret.bind (fun _ => Ret.bind (fun out => Ret.pure ⟨by simp, fun _ => by
+          simp only [List.singleton_append, List.cons_append]; exact loneJump_cons_label _ _ _⟩)))
+      · exact Ret.fail _
 
 /-- a case body that is not a single exit statement is not collected as a lone jump -/
-theorem cStmts_ret (lv : Nat) (body : Stmts) (lb : Nat) (hg : cgStmts lv body = true) (hx : loneExit body = false) :
-    Ret (fun r => loneJump r = none) (cStmts [] lb body) := by
+theorem cStmts_ret (cm : Macros) (lv : Nat) (body : Stmts) (lb : Nat) (hg : cgStmts lv body = true) (hx : loneExit body = false) :
+    Ret (fun r => loneJump r = none) (cStmts cm lb body) := by
   cases body with
   | nil => simp only [cStmts]; exact Ret.pure rfl
   | cons s r =>
@@ -147,22 +155,22 @@ theorem cStmts_ret (lv : Nat) (body : Stmts) (lb : Nat) (hg : cgStmts lv body = 
     | nil =>
       simp only [cStmts, pure_bind]
       simp only [loneExit] at hx
-      exact Ret.bind2 (cStmt_ret lv s lb hg.1) (fun a ha => Ret.pure (by simpa using ha.2 hx))
+      exact Ret.bind2 (cStmt_ret cm lv s lb hg.1) (fun a ha => Ret.pure (by simpa using ha.2 hx))
     | cons s2 r2 =>
       simp only [cgStmts, Bool.and_eq_true] at hg
       simp only [cStmts]
-      refine Ret.bind2 (cStmt_ret lv s lb hg.1) (fun a ha => ?_)
+      refine Ret.bind2 (cStmt_ret cm lv s lb hg.1) (fun a ha => ?_)
       refine Ret.bind2 (Q := fun r => r ≠ []) ?_ (fun b hb => Ret.pure (loneJump_append_ne ha.1 hb))
-      exact Ret.bind2 (cStmt_ret lv s2 _ hg.2.1) (fun a2 ha2 => Ret.bind (fun b2 => Ret.pure (by simp [ha2.1])))
+      exact Ret.bind2 (cStmt_ret cm lv s2 _ hg.2.1) (fun a2 ha2 => Ret.bind (fun b2 => Ret.pure (by simp [ha2.1])))
 
-theorem cStmts_cons_ne (lv : Nat) (st : Stmt) (r : Stmts) (lb : Nat) (hg : cgStmt lv st = true) :
-    Ret (fun x => x ≠ []) (cStmts [] lb (.cons st r)) := by
+theorem cStmts_cons_ne (cm : Macros) (lv : Nat) (st : Stmt) (r : Stmts) (lb : Nat) (hg : cgStmt lv st = true) :
+    Ret (fun x => x ≠ []) (cStmts cm lb (.cons st r)) := by
   simp only [cStmts]
-  exact Ret.bind2 (cStmt_ret lv st lb hg) (fun a ha => Ret.bind (fun b => Ret.pure (by simp [ha.1])))
+  exact Ret.bind2 (cStmt_ret cm lv st lb hg) (fun a ha => Ret.bind (fun b => Ret.pure (by simp [ha.1])))
 
 /-- behind a `return` / `end` / `hold` / `break` / `continue` / `break_loop` / `jump` control does not go on -/
-theorem ends_items {st : Stmt} (he : endsStmt st = true) {lb : Nat} {s : St} {items : List LItem} {s' : St}
-    (h : cStmt [] lb st s = .ok (items, s')) : falls items = false := by
+theorem ends_items {cm : Macros} {st : Stmt} (he : endsStmt st = true) {lb : Nat} {s : St} {items : List LItem} {s' : St}
+    (h : cStmt cm lb st s = .ok (items, s')) : falls items = false := by
   have hop : ∀ (nm : String), Gen.opsEndFlow.contains nm = true → ∀ {s : St} {items : List LItem} {s' : St},
       opStmt nm [] s = .ok (items, s') → falls items = false := by
     intro nm hnm s items s' h
